@@ -247,6 +247,7 @@ def _run_streaming(cmd, lines, env=None):
         e.update(env)
     res = []
     pos = 0
+    idle = IDLE_LIMIT
     while pos < len(lines):
         part = lines[pos:]
         p = subprocess.Popen(cmd, stdin=subprocess.PIPE, stdout=subprocess.PIPE, stderr=subprocess.DEVNULL, env=e)
@@ -270,7 +271,7 @@ def _run_streaming(cmd, lines, env=None):
         hung = False
         while got < len(part):
             try:
-                item = q.get(timeout=IDLE_LIMIT)
+                item = q.get(timeout=idle)
             except queue.Empty:
                 hung = True
                 break
@@ -290,6 +291,8 @@ def _run_streaming(cmd, lines, env=None):
         except subprocess.TimeoutExpired:
             rc = -998
         res.append("(crash %d)" % (-999 if hung else rc))
+        if hung:
+            idle = max(30, IDLE_LIMIT // 8)      # once a case has hung, the rest of this chunk gets less patience
         pos += got + 1
     return res
 
